@@ -640,6 +640,32 @@ theorem C11_get_triggers_nested (h : HSM) (hn : h.ScopesNodup) (p : Path) (hp : 
       rw [this]
       exact Or.comm
 
+/-- **C11, whatever fires is a known trigger**: an event that is offered a transition from some state is declared in
+some scope of the machine (`knownEvents`: root and nested scopes) — so "every known trigger has its method on the model"
+(the oracle's clause after every step, removals included) covers everything `get_triggers` can list or a model can fire. -/
+theorem C11_fires_known (h : HSM) (e : Name) : ∀ (rel pre : Path), firesIn h pre rel e = true → e ∈ h.knownEvents
+  | [], _, hf => by simp [firesIn] at hf
+  | x :: tl, pre, hf => by
+    unfold firesIn at hf
+    simp only [Bool.or_eq_true, Bool.and_eq_true, List.any_eq_true] at hf
+    rcases hf with ⟨q, _, hd⟩ | ⟨_, hsub⟩
+    · unfold declared at hd
+      cases hk : kget e (h.scopeEvents pre) with
+      | none => simp [hk] at hd
+      | some srcs =>
+        have hm := kget_mem _ _ _ hk
+        unfold HSM.scopeEvents at hm
+        cases hs : kget pre h.scopes with
+        | none => simp [hs] at hm
+        | some evs =>
+          simp only [hs, Option.getD_some] at hm
+          exact List.mem_flatMap.mpr ⟨(pre, evs), kget_mem _ _ _ hs, List.mem_map.mpr ⟨(e, srcs), hm, rfl⟩⟩
+    · exact C11_fires_known h e tl (pre ++ [x]) hsub
+
+theorem C11_get_triggers_known (h : HSM) (hn : h.ScopesNodup) (p : Path) (hp : PathStates h [] p) (e : Name)
+    (hm : e ∈ getTriggersH h p) : e ∈ h.knownEvents :=
+  C11_fires_known h e p [] ((C11_get_triggers_nested h hn p hp e).mp hm)
+
 /-- regression (former finding F-C11-nested-get-triggers, DESIGN.md section 6 item 20): states `P`, `P_a`, `P_a_1`
 (character codes 80 / 97 / 49), the event `mid` (109 105 100) declared in the scope of `P` on the
 source `a`: it fires from `P_a_1` and `get_triggers('P_a_1')` lists it -/
